@@ -288,6 +288,28 @@ def directory_cases():
     ]
 
 
+def global_cases():
+    """imported files whose top-level definitions assign to names that an earlier statement of the same file has defined: every
+    statement of an imported file takes part in the program (fix 9b1b14d: `B, A := 2, 3` after `A := 1` was taken for a duplicate of
+    an earlier definition - the de-duplication looked at the last variable only - and removed, so B was never set)"""
+    main = 'import l "lib.tsh"\nprint(l.Get())\n'
+    get = 'func Get() int {\n\treturn A * 100 + B * 10 + c\n}\n'
+    out = []
+    for name, defs, want in (
+            ("last-exists", 'A := 1\nB, A := 2, 3\nc := 4\n', "324\n"),
+            ("first-exists", 'A := 1\nA, B := 3, 2\nc := 4\n', "324\n"),
+            ("private-then-public", 'c := 1\nA, c := 3, 4\nB := 2\n', "324\n"),
+            ("public-then-private", 'A := 1\nc, A := 4, 3\nB := 2\n', "324\n"),
+            ("three-names-middle-new", 'A := 1\nc := 0\nA, B, c := 3, 2, 4\n', "324\n"),
+            ("from-call", 'func two() (int, int) {\n\treturn 2, 3\n}\nA := 1\nB, A := two()\nc := 4\n', "324\n"),
+            ("var-form", 'var A, B int = 3, 2\nvar c = 4\n', "324\n"),
+            ("reassigned", 'A := 1\nB := 1\nA, B = 3, 2\nc := 4\n', "324\n")):
+        out.append(("global-" + name, {"main.tsh": main, "lib.tsh": defs + get + 'print("lib", A, B, c)\n'}, "lib 3 2 4\n" + want))
+        # the same file as the program itself
+        out.append(("global-" + name + "-main", {"main.tsh": defs + get + 'print("lib", A, B, c)\nprint(Get())\n'}, "lib 3 2 4\n" + want))
+    return out
+
+
 def defined_before_use(script):
     """every function the script invokes is defined in it before its first call (text level)"""
     defined = set()
@@ -319,7 +341,7 @@ def run(res, b, tier, seed):
         if c.out.get("BASH", ("", ""))[0] != "ERR":
             fails.append((c, "negative-accepted", dict(cls=c.out.get("BASH", ("", ""))[0])))
     # alias resolution matrix: rejected exactly when the property says so, accepted programs print the value of the function meant
-    am = [pipeline.Case("a" + name, {k: v.encode() for k, v in files.items()}, meta=dict(src=files["main.tsh"], expect=exp)) for name, files, exp in alias_matrix() + directory_cases()]
+    am = [pipeline.Case("a" + name, {k: v.encode() for k, v in files.items()}, meta=dict(src=files["main.tsh"], expect=exp)) for name, files, exp in alias_matrix() + directory_cases() + global_cases()]
     pipeline.run_pipe(b, am, "as")
     acc = [c for c in am if c.out.get("BASH", ("", ""))[0] == "OK"]
     runs = common.pmap_proc(semcheck._exec, [(bytes.fromhex(c.out["BASH"][1]), b"") for c in acc])
